@@ -89,7 +89,7 @@ def gen_task(rng, k):
         libs = [l for l in libs if l not in late]
         extra_types = " ".join("(define-record-type rt%d (make-rt%d x) rt%d? (x rt%d-x))" % (j, j, j, j) for j in range(rng.range(0, 3)))
         steps.insert(1, "%s (import %s) 'imported" % (extra_types, " ".join(late)))
-    return {"heap": rng.choice([0, 0, 512 * 1024, 1024 * 1024, 8 * 1024 * 1024, 700001, 1000008]), "yield_every": rng.choice([1, 7, 50, 400, 5000]),
+    return {"heap": rng.choice([0, 0, 512 * 1024, 1024 * 1024, 8 * 1024 * 1024, 700001, 1000008]), "yield_every": rng.choice([1, 7, 50, 400, 5000]), "std_ports": rng.chance(1, 2),
             "gc_p1024": rng.choice([0, 1, 4]), "gc_seed": rng.below(1 << 30), "imports": libs, "steps": steps}
 
 
